@@ -77,6 +77,7 @@ fn main() {
         ("curve", "replay") => curve::replay(&args, &mut s),
         ("curve", "relations") => curve::relations(&args, &mut s),
         ("curve", "show") => curve::show(&args, &mut s),
+        ("curve", "posrel") => curve::posrel(&args, &mut s),
         ("cache", "replay") => curve::cache_replay(&args, &mut s),
         ("reader", "replay") => reader::replay(&args, &mut s),
         ("reader", "relations") => reader::relations(&args, &mut s),
